@@ -147,7 +147,7 @@ inductive PFam where | soap | plain | http
   deriving Repr, DecidableEq
 inductive PMethod where | post | get | other
   deriving Repr, DecidableEq
-inductive PCtype where | absent | proper | garbage | multipartNoBoundary | otherType
+inductive PCtype where | absent | proper | garbage | multipartNoBoundary | otherType | multipartBoundary
   deriving Repr, DecidableEq
 inductive PLen where
   | absent | empty | exact | short | long | overMax | negative | nonNumeric | float | huge | padded | plus
@@ -162,22 +162,22 @@ structure PreKey where
 
 def PFam.all : List PFam := [.soap, .plain, .http]
 def PMethod.all : List PMethod := [.post, .get, .other]
-def PCtype.all : List PCtype := [.absent, .proper, .garbage, .multipartNoBoundary, .otherType]
+def PCtype.all : List PCtype := [.absent, .proper, .garbage, .multipartNoBoundary, .otherType, .multipartBoundary]
 def PLen.all : List PLen :=
   [.absent, .empty, .exact, .short, .long, .overMax, .negative, .nonNumeric, .float, .huge, .padded, .plus]
 
 def PFam.idx : PFam → Nat | .soap => 0 | .plain => 1 | .http => 2
 def PMethod.idx : PMethod → Nat | .post => 0 | .get => 1 | .other => 2
 def PCtype.idx : PCtype → Nat
-  | .absent => 0 | .proper => 1 | .garbage => 2 | .multipartNoBoundary => 3 | .otherType => 4
+  | .absent => 0 | .proper => 1 | .garbage => 2 | .multipartNoBoundary => 3 | .otherType => 4 | .multipartBoundary => 5
 def PLen.idx : PLen → Nat
   | .absent => 0 | .empty => 1 | .exact => 2 | .short => 3 | .long => 4 | .overMax => 5 | .negative => 6
   | .nonNumeric => 7 | .float => 8 | .huge => 9 | .padded => 10 | .plus => 11
 
 /-- position of a key in the generated table (row-major fam, method, ctype, len) -/
-def PreKey.idx (k : PreKey) : Nat := ((k.fam.idx * 3 + k.method.idx) * 5 + k.ctype.idx) * 12 + k.len.idx
+def PreKey.idx (k : PreKey) : Nat := ((k.fam.idx * 3 + k.method.idx) * 6 + k.ctype.idx) * 12 + k.len.idx
 
-def PreKey.count : Nat := 3 * 3 * 5 * 12
+def PreKey.count : Nat := 3 * 3 * 6 * 12
 
 def PreKey.all : List PreKey :=
   PFam.all.flatMap fun f => PMethod.all.flatMap fun m => PCtype.all.flatMap fun c => PLen.all.map fun l => ⟨f, m, c, l⟩
@@ -232,6 +232,49 @@ def EnvDecision.codec : EnvDecision → Codec
   | .serverFault c => .fault c
   | .escape e => .crash ⟨e, [e, "Exception", "BaseException", "object"]⟩
 
+/-! ### SOAP multi-reference shapes (`id` / `href`, resolve_hrefs) -/
+
+inductive HrefShape where
+  | resolves | missing | empty | cycle | selfCycle | root | dupId | deep
+  deriving Repr, DecidableEq
+
+def HrefShape.idx : HrefShape → Nat
+  | .resolves => 0 | .missing => 1 | .empty => 2 | .cycle => 3 | .selfCycle => 4 | .root => 5 | .dupId => 6 | .deep => 7
+
+structure HrefKey where
+  soap12 : Bool
+  shape : HrefShape
+  deriving Repr, DecidableEq
+
+def HrefKey.idx (k : HrefKey) : Nat := (if k.soap12 then 1 else 0) * 8 + k.shape.idx
+def HrefKey.count : Nat := 2 * 8
+
+/-! ### what the WSGI callable reads from the environ before it looks at the request: SCRIPT_NAME, PATH_INFO, HTTP_HOST,
+    url scheme / port (`_reconstruct_url`) -/
+
+inductive UScript where | empty | slash | doubleSlash | name
+  deriving Repr, DecidableEq
+inductive UPath where | empty | slash | name
+  deriving Repr, DecidableEq
+inductive UHost where | absent | plain | withPort | junk
+  deriving Repr, DecidableEq
+
+structure UrlKey where
+  fam : PFam
+  script : UScript
+  path : UPath
+  host : UHost
+  https : Bool
+  deriving Repr, DecidableEq
+
+def UScript.idx : UScript → Nat | .empty => 0 | .slash => 1 | .doubleSlash => 2 | .name => 3
+def UPath.idx : UPath → Nat | .empty => 0 | .slash => 1 | .name => 2
+def UHost.idx : UHost → Nat | .absent => 0 | .plain => 1 | .withPort => 2 | .junk => 3
+
+def UrlKey.idx (k : UrlKey) : Nat :=
+  (((k.fam.idx * 4 + k.script.idx) * 3 + k.path.idx) * 4 + k.host.idx) * 2 + (if k.https then 1 else 0)
+def UrlKey.count : Nat := 3 * 4 * 3 * 4 * 2
+
 /-! ### facts -/
 
 structure Facts10 where
@@ -258,10 +301,18 @@ structure Facts10 where
   preTable : List PreDecision
   /-- the measured envelope table of Soap11 / Soap12, `EnvKey.idx` order -/
   envTable : List EnvDecision
+  /-- the measured multi-reference table of Soap11 / Soap12, `HrefKey.idx` order -/
+  hrefTable : List EnvDecision
+  /-- the measured url-reconstruction table, `UrlKey.idx` order (`proceed`: the request is served as without the oddity) -/
+  urlTable : List PreDecision
 
 def Facts10.pre (F : Facts10) (k : PreKey) : PreDecision := F.preTable.getD k.idx (.escape "row missing")
 
 def Facts10.env (F : Facts10) (k : EnvKey) : EnvDecision := F.envTable.getD k.idx (.escape "row missing")
+
+def Facts10.href (F : Facts10) (k : HrefKey) : EnvDecision := F.hrefTable.getD k.idx (.escape "row missing")
+
+def Facts10.url (F : Facts10) (k : UrlKey) : PreDecision := F.urlTable.getD k.idx (.escape "row missing")
 
 /-! ### the funnel -/
 
@@ -385,5 +436,13 @@ def runWsgi (F : Facts10) (k : PreKey) (q : Req) : WResult :=
         | .code c => .fault c (statusOf F q.proto c) n
         | .retried => .escape e.name
         | .propagates r => .escape r.name
+
+/-- the callable with its first step in front: `_reconstruct_url` on the environ, then everything else -/
+def runWsgiUrl (F : Facts10) (u : UrlKey) (k : PreKey) (q : Req) : WResult :=
+  match F.url u with
+  | .escape n => .escape n
+  | .unavailable => .escape "unavailable"
+  | .reject c s => .fault c s 0
+  | .proceed => runWsgi F k q
 
 end SpyneModel.Hostile
